@@ -217,7 +217,11 @@ where
                 } else {
                     // The dump procedure is already running, but this does not guarantee that the dump for the desired blob will be made in it. 
                     // Therefore, we defer the dump procedure once more
-                    self.deferred_index_dump_info = Some(Box::new(DeferredEventData::new()));
+                    // The new record needs its own deadline: the elapsed one has just been reset
+                    let deferred = Box::new(DeferredEventData::new());
+                    let next_deadline = deferred.next_deadline(min, max);
+                    self.deferred_index_dump_info = Some(deferred);
+                    self.update_deadline(next_deadline);
                 }
             } else {
                 let next_deadline = deferred.next_deadline(min, max);
